@@ -8,6 +8,7 @@ import (
 	"os/exec"
 	"path/filepath"
 	"strings"
+	"sync/atomic"
 
 	"verifharness/gen"
 	"verifharness/mc"
@@ -186,6 +187,12 @@ func (e *env) scenario(name string, bounds map[string]interface{}, ins []In, per
 }
 
 func Run(r *mc.Run) {
+	c14.MapOrderBound = 2
+	defer func() {
+		r.Extra["map_order_executions_explicit"] = atomic.LoadInt64(&c14.MapOrderExecs)
+		r.Extra["map_order_calls_capped"] = atomic.LoadInt64(&c14.MapOrderCapped)
+		r.Extra["map_orders"] = c14.MapOrderNote
+	}()
 	r.Rule = "every enumerated (package bytes, role asked, keyring) triple is executed through LoadAndVerify = deb.Load + drain Deb.Data + Deb.CheckDebsig; distinct cases are counted by sha256 of the triple; non-trivial = every case except the untampered package asked for its own role with the signer in the keyring (those are the vacuity guard)"
 	r.Assume = []string{
 		"soundness oracle only: nothing is demanded when Load or CheckDebsig fails; when both succeed the signer, the role, the signed byte string and the exposed content are compared with what the harness built",
